@@ -23,10 +23,13 @@ const (
 	sEmptyNil            // no error, nil data (marshal) / leaves the value empty (unmarshal); the expected data is "" / the zero value
 	sPanicRuntime        // panics with a runtime.Error (index out of range)
 	sWrongSimilar        // wrong data that is "equivalent" under a looser comparison (JSON members reordered and re-spaced; same text in another case)
+	sRightRaw            // right data / value that is not valid UTF-8 and contains NUL (data is opaque bytes to the helpers)
 	nScripts
 )
 
-var scriptNames = [...]string{"right", "wrong", "error", "error+data", "panic", "empty", "runtimepanic", "wrongsimilar"}
+var scriptNames = [...]string{"right", "wrong", "error", "error+data", "panic", "empty", "runtimepanic", "wrongsimilar", "rightraw"}
+
+const rawPayload = "caf\xe9\x00\xff"
 
 // the payload is JSON-shaped so that a JSON-aware comparison could be fooled
 const similarPayload = `{"b":2, "a":1}`
@@ -48,6 +51,8 @@ func marshalScript(script int, payload string) ([]byte, error) {
 		_ = arr[script] // runtime error: index out of range
 	case sWrongSimilar:
 		return []byte(similarPayload), nil
+	case sRightRaw:
+		return []byte(rawPayload), nil
 	}
 	panic("kaboom: scripted panic")
 }
@@ -74,6 +79,8 @@ func unmarshalScript(data []byte) (payload string, set bool, err error) {
 		_ = arr[len(s)] // runtime error: index out of range
 	case "wrongsimilar":
 		return strings.ToUpper(s[i+1:]), true, nil
+	case "rightraw":
+		return rawPayload, true, nil
 	}
 	panic("kaboom: scripted panic")
 }
@@ -315,7 +322,13 @@ func unmet(c caseSpec, marshalDir bool) []string {
 		return []string{"after_hook_fails"}
 	}
 	errTxt, _ := scriptErrText(c.Script)
-	hasResult := c.Script == sRight || c.Script == sWrong || c.Script == sErrData || c.Script == sWrongSimilar
+	hasResult := c.Script == sRight || c.Script == sWrong || c.Script == sErrData || c.Script == sWrongSimilar || c.Script == sRightRaw
+	if c.Script == sRightRaw && c.Pred == pNil { // equals the expectation exactly when the case expects the raw payload
+		if c.Different {
+			return []string{"data_or_value_differs"}
+		}
+		return nil
+	}
 	if c.Script == sEmptyNil { // the result is empty: it equals the expectation exactly when the case expects the empty data / zero value
 		if c.Pred != pNil {
 			return []string{"missing_error"}
@@ -386,6 +399,9 @@ func marshalExpected(c caseSpec) string {
 	if c.Script == sEmptyNil {
 		return ""
 	}
+	if c.Script == sRightRaw {
+		return rawPayload
+	}
 	return rightPayload
 }
 func unmarshalInput(c caseSpec) string { return scriptNames[c.Script] + ":" + rightPayload }
@@ -395,6 +411,9 @@ func unmarshalExpectedPayload(c caseSpec) string {
 	}
 	if c.Script == sEmptyNil {
 		return ""
+	}
+	if c.Script == sRightRaw {
+		return rawPayload
 	}
 	return rightPayload
 }
